@@ -1,7 +1,137 @@
-(* Props/C25.v — placeholder while the pipeline is brought up. *)
-From Coq Require Import List Bool NArith.
-From Cylc Require Import Base.Util Model.Store Proofs.StoreProofs.
-Import ListNotations.
+(* Props/C25.v — C25 "The published data store reflects the task pool".
 
-Theorem c25_replica_snoc : forall q d, replica (q ++ [d]) = client_apply (replica q) d.
-Proof. exact replica_snoc. Qed.
+   Model/Store.v models the task-proxy part of cylc/flow/data_store_mgr.py
+   (DataStoreMgr, module-level apply_delta) and the way scheduler.py /
+   commands.py drive it; it is tied to /repo by the C25 streams: the delta_*
+   calls, every article put on the publish queue and the real client replica of
+   each generated scheduler run are replayed / compared inside Coq
+   (vp/props/c25.py).  Every proof below is `exact <lemma>` from
+   Proofs/StoreProofs.v. *)
+From Coq Require Import List Bool NArith.
+From Cylc Require Import Base.Util Gen.StoreTables Model.Store Proofs.StoreProofs.
+Import ListNotations.
+Local Open Scope N_scope.
+
+(* ---------------------------------------------------------------------- *)
+(* 1. "A client that starts from the initial published snapshot and applies
+      every published delta in order holds the same data as the scheduler."
+
+   [sched_run p]: the manager after any sequence p of delta_* calls (SDelta),
+   Scheduler.update_data_structure (SUpdate), Scheduler._update_workflow_state
+   (SWfState), the reload command (SReload) and run_scheduler's unconditional
+   put (SStartPut).  [replica q] folds the client's apply_delta (clear on
+   `reloaded`) over the queue q starting from the empty store.  [seq] is
+   equality of the two stores, id by id, on every modelled field except the
+   repeated field that apply_delta does not clear (`edges`; `strip`). *)
+
+(* delta algebra, for all sequences: queue plus what is handed over but not yet
+   put (publish_pending) always reproduces the scheduler's store *)
+Theorem c25_replica_equals_store_partial : forall p,
+  let s := sched_run p in seq (replica (s_queue s ++ outstanding s)) (s_data s).
+Proof. exact replica_equals_store. Qed.
+
+(* ... and after every data-store update of the main loop nothing is outstanding:
+   the client holds the scheduler's store *)
+Theorem c25_replica_after_update_partial : forall p o,
+  (exists b, o = SUpdate b) \/ o = SWfState ->
+  let s := sched_run (p ++ [o]) in seq (replica (s_queue s)) (s_data s).
+Proof. exact replica_equals_store_after_update. Qed.
+
+(* The full statement (plain equality, every field) ... *)
+Definition c25_replica_strict : Prop := forall p o,
+  (exists b, o = SUpdate b) \/ o = SWfState ->
+  let s := sched_run (p ++ [o]) in seq_strict (replica (s_queue s)) (s_data s).
+
+(* ... is false of the faithful model, because it is false of the code (finding
+   "replica-repeated-field-multiplicity"): a task enters the pool (ghost node
+   `added`), generate_edge appends an edge id to its pending `updated` element,
+   one update_data_structure.  apply_delta merges `updated` into the very object
+   that is published as `added`, so the client merges the edge id twice. *)
+Definition c25_witness_pv : pv := mkPv 0 false false true [1%N] [(0%N, false)] [].
+Definition c25_witness : list sop :=
+  [SDelta (OpGhost 0 false (Some c25_witness_pv)); SDelta (OpGhost 1 false None);
+   SDelta (OpEdge 1 0 7); SDelta (OpState 0 c25_witness_pv)].
+Theorem c25_replica_strict_refuted : ~ c25_replica_strict.
+Proof.
+  intros H. specialize (H c25_witness (SUpdate true) (or_introl (ex_intro _ true eq_refl)) 0%N).
+  vm_compute in H. discriminate H.
+Qed.
+(* what the two sides hold for task 0: edges [7] in the store, [7; 7] in the replica *)
+Example c25_witness_edges :
+  let s := sched_run (c25_witness ++ [SUpdate true]) in
+  option_map n_edges (sget 0%N (s_data s)) = Some [7%N]
+  /\ option_map n_edges (sget 0%N (replica (s_queue s))) = Some [7%N; 7%N].
+Proof. vm_compute. split; reflexivity. Qed.
+
+(* the ingredients, each for all inputs: the published batch (with the aliased
+   `added` elements) has the effect of the applied batch; apply_delta respects
+   store equality; publishing the same batch twice is harmless on these fields *)
+Theorem c25_published_batch_equiv : forall d s, seq (apply_delta (alias_delta d) s) (apply_delta d s).
+Proof. exact apply_alias. Qed.
+Theorem c25_apply_delta_congruent : forall d a b, seq a b -> seq (apply_delta d a) (apply_delta d b).
+Proof. exact apply_congr. Qed.
+Theorem c25_duplicate_publish_harmless : forall d r, seq (client_apply (client_apply r d) d) (client_apply r d).
+Proof. exact client_twice. Qed.
+(* MergeFrom of task-proxy elements is a monoid action (associative, the empty element is neutral) *)
+Theorem c25_merge_assoc : forall n u v, upd_node (upd_node n u) v = upd_node n (upd_node u v).
+Proof. exact upd_assoc. Qed.
+
+(* ---------------------------------------------------------------------- *)
+(* 2. "After every data-store update in the main loop, every task in the pool
+      appears in the published data store with the same status, held, queued
+      and runahead flags, flow numbers, completed outputs and prerequisite
+      satisfaction."
+
+   [prun] runs a program of pool mutations, each with the data-store calls
+   the scheduler makes for it (PAdd: generate_ghost_task / delta_from_task_proxy
+   + delta_task_state; PState: delta_task_state, whose "set the field only if it
+   differs from the store or from the pending delta" rule is modelled literally;
+   POutputs, PPrereqs, PFlows; PRemove; POther: any delta_* call about ids that
+   are not in the pool, and edges; PUpdate: update_data_structure pruning ids
+   outside the pool).  [reflects n p]: node n shows pool values p. *)
+
+Theorem c25_pool_reflected_partial : forall prog ids dd pl s,
+  prun ([], init_mgr []) (prog ++ [PUpdate ids dd]) = Some (pl, s) ->
+  forall i p, sget i pl = Some p -> exists n, sget i (s_data s) = Some n /\ reflects n p.
+Proof. exact pool_reflected. Qed.
+
+(* between updates: what the next batch will store for a pooled task is the pool's view *)
+Theorem c25_pool_reflected_pending : forall prog pl s,
+  prun ([], init_mgr []) prog = Some (pl, s) ->
+  forall i p, sget i pl = Some p -> exists n, eff s i = Some n /\ reflects n p.
+Proof. exact pool_reflected_pending. Qed.
+
+(* the rule of delta_task_state never loses an update: whatever the store node t and the
+   pending delta d hold, after the rule the merged value is the pool's value *)
+Theorem c25_state_rule_lossless : forall t d v, getb (oor (rule_flag true t d v) t) = v.
+Proof. exact rule_flag_ok. Qed.
+Theorem c25_status_rule_lossless : forall t d v, oor (rule_state t d v) t = Some v.
+Proof. exact rule_state_ok. Qed.
+
+(* non-vacuity: a program that adds two tasks, changes state / outputs / prerequisites /
+   flows, holds a future task, draws an edge, removes a task and updates twice is accepted,
+   and the final store shows the surviving pool task *)
+Definition c25_p0 : pv := mkPv 0 false false true [1%N] [(0%N, false); (1%N, false)] [(false, [false])].
+Definition c25_prog : list pop :=
+  [PAdd 0 c25_p0 false; PAdd 1 c25_p0 true; POther (OpGhost 2 false None); POther (OpEdge 2 0 5);
+   PState 0 0 false true false; PUpdate [] [];
+   PPrereqs 0 [(true, [true])]; PState 0 2 false false false; POther (OpHeld 2 true);
+   POutputs 0 [(0%N, true); (1%N, false)]; PFlows 0 [1%N; 2%N]; PRemove 1;
+   PState 0 4 false false false; PUpdate [1%N] [1%N]].
+Example c25_prog_accepted :
+  match prun ([], init_mgr []) c25_prog with
+  | Some (pl, s) =>
+      sget 0%N pl = Some (mkPv 4 false false false [1%N; 2%N] [(0%N, true); (1%N, false)] [(true, [true])])
+      /\ option_map n_state (sget 0%N (s_data s)) = Some (Some 4%N)
+      /\ option_map n_flows (sget 0%N (s_data s)) = Some (Some [1%N; 2%N])
+      /\ sget 1%N (s_data s) = None
+      /\ option_map n_held (sget 2%N (s_data s)) = Some (Some true)
+  | None => False
+  end.
+Proof. vm_compute. repeat split; reflexivity. Qed.
+
+(* Partial: not covered by theorem 2 is update_workflow_states() running while task-proxy
+   deltas are pending (it applies and publishes them without clearing, so they are applied
+   again by the next update_data_structure); theorem 1, the replay of real runs and the
+   oracle cover it.  The n-window walk (which ghost nodes exist, which are pruned), jobs,
+   families and the workflow element are not modelled; the oracle compares them at run time. *)
